@@ -22,8 +22,11 @@ PROPERTY = {
                    "plus ghost event trace of pin levels and delays, with recursive trace functions for the loops - is proved of the "
                    "host method (pyvc on the real Python) and of the firmware fragment produced by the real emitter (cxx2py translation of "
                    "clang's AVR-typed AST, signed-overflow/division/float-to-int obligations included), for all in-range arguments "
-                   "and all prior states: host == firmware by transitivity. NOT covered (no contract yet): Led.flash_pattern, RGBLed "
-                   "fade/blink, DCMotor backward/ramp/run_for, the getter expressions, out-of-range clamping clauses.",
+                   "and all prior states: host == firmware by transitivity; the RGBLed.fade firmware fragment is proved against its interpolation "
+                   "spec. Emission is context-free on the enumerated command sets (C04/compose/*), so the per-command contracts compose over "
+                   "sequences. NOT under contract: Led.flash_pattern, RGBLed.blink, DCMotor backward/ramp/run_for, the getter expressions, "
+                   "out-of-range clamping clauses - these are covered only by the bounded device differential (literal arguments through "
+                   "the real parser, getters and delays against the host class).",
     "trusted_base": ["pyvc symbolic executor", "cxx2py translation of clang's AVR AST (mechanical; drops listed in cxx2py.py)",
                      "clang 14 AVR front end typing", "mock Arduino.h signatures", "z3"],
     "assumptions": [
@@ -501,7 +504,26 @@ def build():
                                                 "__servo_angle_s == " + sf["pmap"]("pulse", "__servo").replace("_min_pulse", "_min_pulse_s").replace("_max_pulse", "_max_pulse_s").replace("_min_angle", "_min_angle_s").replace("_max_angle", "_max_angle_s"),
                                                 "E == old(E) + [ev(6, 0, trunc(pulse + 0.5))]"])
     _BUILD["info"] = {k: {"sha": v["sha"], "prims": v["prims"], "externs": v["externs"]} for k, v in info.items()}
+    _BUILD["replay"] = {}
+    for k, v in info.items():
+        sp = specs.get(k) or more.get(k)
+        _BUILD["replay"][v["pyname"]] = (v, sp["opaque"], sp.get("where", "setup"), FW if k in specs else FW2)
     return reg
+
+
+def replay_model(o):
+    """replay a counterexample of a fragment contract on the really emitted C++ (globals at the end of the fragment; the level-change
+    trace of this property's event vocabulary is not compared, only plain events are)"""
+    from cxxvc import fwreplay
+    from pyvc import loader
+    unit = o["name"].split("/")[1].split("[")[0]
+    base = unit[:-len("__mode_all")] if unit.endswith("__mode_all") else unit
+    if base not in _BUILD.get("replay", {}):
+        return None
+    tr, opaque, where, file = _BUILD["replay"][base]
+    reg = build()
+    mods = loader.load(sorted({f for (f, _) in reg.contracts if f != "<extern>"}))
+    return fwreplay.replay(reg, mods, file, unit, tr, opaque, where, o.get("model") or {}, o["name"], engine_setup=engine_setup, compare_events=False)
 
 
 def extra_obligations(mods, tier, seed):
@@ -511,6 +533,12 @@ def extra_obligations(mods, tier, seed):
     out = devdiff.obligations("C04/diff", devdiff.actuator_scripts(), what="getter values and delays equal the host class's under CPython")
     from progs.concat import concat_obligations
     out += concat_obligations("C04", {
+        "Led": ("d = Led(9)", ["d.on()", "d.off()", "d.toggle()", "d.set_brightness(77)", "d.blink(20, 2)", "d.fade_in(50, 3)", "d.flash_pattern([1, 0], 10)"]),
+        "RGBLed": ("d = RGBLed(9, 10, 11)", ["d.set_color(1, 2, 3)", "d.on()", "d.off()", "d.blink(9, 9, 9, 2, 10)", "d.fade(10, 20, 30, 100, 4)"]),
+        "Servo": ("d = Servo(6)", ["d.write(90)", "d.write_us(1500)", "d.write(10.5)"]),
+        "DCMotor": ("d = DCMotor(2, 3, 5)", ["d.set_speed(0.5)", "d.backward()", "d.stop()", "d.coast()", "d.invert()", "d.ramp(1.0, 100)", "d.run_for(50, 0.5)"])})
+    from progs.concat import scope_obligations
+    out += scope_obligations("C04", {
         "Led": ("d = Led(9)", ["d.on()", "d.off()", "d.toggle()", "d.set_brightness(77)", "d.blink(20, 2)", "d.fade_in(50, 3)", "d.flash_pattern([1, 0], 10)"]),
         "RGBLed": ("d = RGBLed(9, 10, 11)", ["d.set_color(1, 2, 3)", "d.on()", "d.off()", "d.blink(9, 9, 9, 2, 10)", "d.fade(10, 20, 30, 100, 4)"]),
         "Servo": ("d = Servo(6)", ["d.write(90)", "d.write_us(1500)", "d.write(10.5)"]),
